@@ -373,6 +373,14 @@ struct replace_state {
 
 static void replacesetup(int32_t argc, Janet *argv, struct replace_state *s) {
     janet_arity(argc, 3, 4);
+    /* The search keeps raw pointers into pattern and text while a substitution function runs: it could push
+     * to a buffer among them and so move its storage. Work on copies of buffers. */
+    for (int32_t i = 0; i < 3; i += 2) {
+        if (janet_checktype(argv[i], JANET_BUFFER) && !janet_checktype(argv[1], JANET_STRING)) {
+            JanetBuffer *b = janet_unwrap_buffer(argv[i]);
+            argv[i] = janet_stringv(b->data, b->count);
+        }
+    }
     JanetByteView pat = janet_getbytes(argv, 0);
     Janet subst = argv[1];
     JanetByteView text = janet_getbytes(argv, 2);
